@@ -163,7 +163,7 @@ Lemma inv_prov_step g w w3 e en3 t kt ob' ev :
   (forall x, x <> e -> set_mem x (cset (w_st w3)) = set_mem x (cset (w_st w))) ->
   (flagged en3 = true -> set_mem e (cset (w_st w3)) = true) ->
   now (w_st w) <= now (w_st w3) -> lastch (w_st w3) <= now (w_st w3) ->
-  maxchg en3 <= now (w_st w3) -> (forall sd, x_lg (getx w3 e sd) <= now (w_st w3)) ->
+  maxchg en3 <= now (w_st w3) + 1 -> (forall sd, x_lg (getx w3 e sd) <= now (w_st w3) + 1) ->
   tape (w_st w3) = [] -> IdxJ (w_st w3) ->
   (forall x sd, x <> e -> getx w3 x sd = getx w x sd) ->
   (forall sd o, (exists en, nth_error (ents (w_st w)) e = Some en /\ s_oid (gs en sd) = Some o) -> s_oid (gs en3 sd) = Some o) ->
@@ -1142,4 +1142,152 @@ Proof.
         + assert (sd0 = t) by (unfold t; destruct sd0, s; try reflexivity; contradiction). subst sd0.
           rewrite Hf_t in Ho0. cbn [w_chg w_ex s_oid] in Ho0. congruence. }
     split; [reflexivity|exact Hgx].
+Qed.
+
+(* ------------------------------------------------------------------ punt *)
+(* only the change stamp of side sd moves (forward) *)
+Lemma EntOk_chg_only evl g w w' e en en' sd nw m :
+  EntOk evl g w e en -> prog en en' sd nw m ->
+  s_otype (gs en' sd) = s_otype (gs en sd) -> s_ex (gs en' sd) = s_ex (gs en sd) ->
+  s_hash (gs en' sd) = s_hash (gs en sd) -> s_path (gs en' sd) = s_path (gs en sd) ->
+  (s_oid (gs en sd) = None -> s_chg (gs en' sd) = s_chg (gs en sd)) ->
+  (forall sd0 k0, obj_at w' sd0 k0 = obj_at w sd0 k0) ->
+  (forall sd0, x_lg (getx w' e sd0) = x_lg (getx w e sd0)) ->
+  EntOk evl g w' e en'.
+Proof.
+  intros EO P Hot Hex Hh Hp Hnc Hobj Hlg.
+  apply (EntOk_side evl evl g w w' e en en' sd nw m EO P).
+  - rewrite Hot. apply (ent_file evl g w e en EO sd).
+  - exact Hobj.
+  - apply Hlg.
+  - auto.
+  - intros k ob Ho Hob. destruct (so_full _ _ _ _ _ _ (eo_side _ _ _ _ _ EO sd) _ Ho) as (k1 & ob1 & Hk1 & Hob1 & _ & FO).
+    apply ostr_k_inj in Hk1. subst k1. assert (ob1 = ob) by congruence. subst ob1.
+    destruct FO as [f1 f2 f3 f4 f5 f6 f7 f8 f10 f9]. rewrite Hex, Hh, Hp.
+    split; [exact f1|]. split.
+    { destruct f2 as [X|[X|X]]; [left; exact X|right; left; rewrite Hlg; pose proof (prog_maxchg _ _ _ _ _ P); lia|right; right].
+      unfold freshP in *. rewrite Hex, Hh, Hp. exact X. }
+    split; [exact f3|]. split.
+    { intros Hd cs Hcs. destruct (f8 Hd cs Hcs) as (P1 & _ & _ & P4 & _). destruct (f10 Hd cs Hcs) as (_ & P6). auto. }
+    intros Hd Hcs. destruct (f9 Hd Hcs) as (_ & M2 & _ & M4 & _ & M6 & _). auto.
+  - intros Hno. destruct (so_empty _ _ _ _ _ _ (eo_side _ _ _ _ _ EO sd) Hno) as (X1 & X2 & X3 & _).
+    rewrite Hh, Hp, Hex. split; [exact X2|]. split; [exact X3|]. split.
+    + rewrite (Hnc Hno). exact X1.
+    + intros Hd. apply (so_empty_ex _ _ _ _ _ _ (eo_side _ _ _ _ _ EO sd) Hno Hd).
+Qed.
+
+Lemma chgv_le_maxchg en sd : chgv (gs en sd) <= maxchg en.
+Proof. unfold maxchg. destruct sd; simpl; lia. Qed.
+
+Lemma shift_side_spec en sd :
+  (tchg (s_chg (gs en sd)) = true -> tstr (s_oid (gs en sd)) = true) ->
+  (tchg (s_chg (gs en sd)) = false /\ shift_side (env_of (cfg_std 1)) en sd = (en, None)) \/
+  (exists c, s_chg (gs en sd) = CNum c /\ tchg (CNum c) = true /\
+             shift_side (env_of (cfg_std 1)) en sd = (ss en sd (w_chg (gs en sd) (CNum (c + 1))), Some true)).
+Proof.
+  intros Hw. unfold shift_side. destruct (tchg (s_chg (gs en sd))) eqn:Ec; [right|left; auto].
+  destruct (s_chg (gs en sd)) as [| |c] eqn:Es; try discriminate. exists c. split; [reflexivity|]. split; [exact Ec|].
+  cbn [chg_add StateModel.punt env_of]. unfold chg_entry, chg_pending.
+  assert (Ht: tchg (CNum (c + 1)) = true) by (unfold tchg; destruct (c + 1)%N eqn:E1; [lia|reflexivity]).
+  rewrite Ht, (Hw eq_refl). cbn [andb orb negb]. reflexivity.
+Qed.
+
+Lemma tchg_succ c : tchg (CNum (c + 1)) = true.
+Proof. unfold tchg. destruct (c + 1)%N eqn:E1; [lia|reflexivity]. Qed.
+
+(* SyncEntry.punt: priority one up, every stamp of the entry one unit later *)
+Lemma punt_pres g w e en w' :
+  SCtx g w e en -> maxchg en <= now (w_st w) -> punt w e = ROk w' ->
+  Inv g w' /\ (forall x sd0, getx w' x sd0 = getx w x sd0).
+Proof.
+  intros [I He Hn Hr] Htight H.
+  pose proof (i_cfg _ _ _ I) as Hcfg. pose proof (i_tape _ _ _ I) as Htape. pose proof (i_ents _ _ _ I e en He Hn) as EO.
+  unfold punt, get_e, lift, get_ent in H. rewrite Hn in H. cbn [rbind] in H.
+  destruct (set_priority_w w Hcfg Htape e (e_prio en + PRIO_ONE) en Hn) as (w2 & H2 & W2). rewrite H2 in H. injection H as <-.
+  set (v := e_prio en + PRIO_ONE) in *.
+  assert (Hv1: N.eqb (e_prio en) v = false) by (apply N.eqb_neq; unfold v, PRIO_ONE; lia).
+  assert (Hv2: (N.ltb (e_prio en) v && N.ltb 0 v)%bool = true).
+  { apply andb_true_intro. split; apply N.ltb_lt; unfold v, PRIO_ONE; lia. }
+  unfold prio_entry, prio_member in W2. rewrite Hv1, Hv2 in W2.
+  (* the two shifts *)
+  set (ena := fst (shift_side (env_of (cfg_std 1)) en false)) in *. set (ma := snd (shift_side (env_of (cfg_std 1)) en false)) in *.
+  set (enb := fst (shift_side (env_of (cfg_std 1)) ena true)) in *. set (mb := snd (shift_side (env_of (cfg_std 1)) ena true)) in *.
+  assert (Pa: prog en ena false (now (w_st w) + 1) ma /\ s_otype (gs ena false) = s_otype (gs en false) /\ s_ex (gs ena false) = s_ex (gs en false) /\
+              s_hash (gs ena false) = s_hash (gs en false) /\ s_path (gs ena false) = s_path (gs en false) /\
+              (s_oid (gs en false) = None -> s_chg (gs ena false) = s_chg (gs en false)) /\ maxchg ena <= now (w_st w) + 1).
+  { unfold ena, ma. destruct (shift_side_spec en false (ent_chg_oid (real_evl w) g w e en EO false)) as [(X & ->)|(c & Hc & Htc & ->)]; cbn [fst snd].
+    - split; [apply prog_refl|]. repeat (split; [reflexivity|]). lia.
+    - assert (Hcle: c <= now (w_st w)) by (pose proof (chgv_le_maxchg en false) as X; unfold chgv in X; rewrite Hc in X; simpl in X; lia).
+      split.
+      { unfold prog. rewrite gs_ss_same, gs_ss_other, ign_ss. cbn [w_chg s_oid s_spath s_shash s_force s_chg].
+        repeat (split; [reflexivity|]). right. exists (c + 1). split; [reflexivity|]. split; [apply tchg_succ|]. rewrite Hc. simpl. split; [lia|]. split; [lia|reflexivity]. }
+      rewrite gs_ss_same. cbn [w_chg s_otype s_ex s_hash s_path s_chg]. repeat (split; [reflexivity|]). split.
+      + intros Hno. exfalso. pose proof (ent_chg_oid (real_evl w) g w e en EO false) as X. rewrite Hc, Hno in X. specialize (X Htc). discriminate.
+      + pose proof (chgv_le_maxchg en true) as X. unfold maxchg, chgv in *. destruct en as [l r i p]; simpl in *. lia. }
+  destruct Pa as (Pa & A1 & A2 & A3 & A4 & A5 & A6).
+  assert (EOa: EntOk (real_evl w) g w e ena).
+  { apply (EntOk_chg_only (real_evl w) g w w e en ena false _ ma EO Pa A1 A2 A3 A4 A5); reflexivity. }
+  assert (Pb: prog ena enb true (now (w_st w) + 1) mb /\ s_otype (gs enb true) = s_otype (gs ena true) /\ s_ex (gs enb true) = s_ex (gs ena true) /\
+              s_hash (gs enb true) = s_hash (gs ena true) /\ s_path (gs enb true) = s_path (gs ena true) /\
+              (s_oid (gs ena true) = None -> s_chg (gs enb true) = s_chg (gs ena true)) /\ maxchg enb <= now (w_st w) + 1).
+  { assert (Htr: chgval (s_chg (gs ena true)) <= now (w_st w)).
+    { destruct Pa as (Po & _). cbn [negb] in Po. rewrite Po. pose proof (chgv_le_maxchg en true) as X. unfold chgv in X. lia. }
+    unfold enb, mb. destruct (shift_side_spec ena true (ent_chg_oid (real_evl w) g w e ena EOa true)) as [(X & ->)|(c & Hc & Htc & ->)]; cbn [fst snd].
+    - split; [apply prog_refl|]. repeat (split; [reflexivity|]). exact A6.
+    - rewrite Hc in Htr. simpl in Htr. split.
+      { unfold prog. rewrite gs_ss_same, gs_ss_other, ign_ss. cbn [w_chg s_oid s_spath s_shash s_force s_chg].
+        repeat (split; [reflexivity|]). right. exists (c + 1). split; [reflexivity|]. split; [apply tchg_succ|]. rewrite Hc. simpl. split; [lia|]. split; [lia|reflexivity]. }
+      rewrite gs_ss_same. cbn [w_chg s_otype s_ex s_hash s_path s_chg]. repeat (split; [reflexivity|]). split.
+      + intros Hno. exfalso. pose proof (ent_chg_oid (real_evl w) g w e ena EOa true) as X. rewrite Hc, Hno in X. specialize (X Htc). discriminate.
+      + unfold maxchg, chgv in *. destruct ena as [l r i p]; simpl in *. lia. }
+  destruct Pb as (Pb & B1 & B2 & B3 & B4 & B5 & B6).
+  assert (EOb: EntOk (real_evl w) g w e enb).
+  { apply (EntOk_chg_only (real_evl w) g w w e ena enb true _ mb EOa Pb B1 B2 B3 B4 B5); reflexivity. }
+  set (en3 := mkEnt (e_l enb) (e_r enb) (e_ign enb) v) in *.
+  assert (S3: same_but_prio enb en3) by (unfold en3; repeat split).
+  pose proof W2 as (Wcfg & WpL & WpR & Wx & (SA & SB & SC & SD & SJ) & WT).
+  assert (Hprov: forall sd0, prov_of w2 sd0 = prov_of w sd0) by (intros; apply (weff_prov _ _ _ _ _ sd0 W2)).
+  assert (Hgx: forall x sd0, getx w2 x sd0 = getx w x sd0) by (intros; apply (weff_getx _ _ _ _ _ x sd0 W2)).
+  assert (Hobj: forall sd0 k0, obj_at w2 sd0 k0 = obj_at w sd0 k0) by (intros; unfold obj_at; rewrite Hprov; reflexivity).
+  assert (Hen2: nth_error (ents (w_st w2)) e = Some en3) by (rewrite SA; eapply nth_list_upd_eq; eauto).
+  assert (Hoid3: forall sd0, s_oid (gs en3 sd0) = s_oid (gs en sd0)).
+  { intros sd0. rewrite <- (sbp_gs _ _ sd0 S3). destruct Pa as (Po & _ & Pi & _). destruct Pb as (Qo & _ & Qi & _).
+    destruct sd0; cbn [negb] in *; congruence. }
+  split; [|exact Hgx].
+  unfold Inv. apply (InvP_ext (real_evl w)); [intros sd0; unfold real_evl; rewrite Hprov; reflexivity|].
+  apply (inv_master (real_evl w) (real_evl w) g g w w2 e en3 I).
+  - exact Wcfg.
+  - intros sd0. rewrite Hprov. split; [apply (i_pwf _ _ _ I)|]. split; [apply (ShapeOk_ext w w2 sd0 (Hobj sd0) (i_shape _ _ _ I sd0))|].
+    apply (LogOk_ext (real_evl w) (real_evl w) w w2 sd0 (Hobj sd0)); [auto|apply (i_log _ _ _ I)].
+  - exact He.
+  - exact Hen2.
+  - rewrite SA, length_list_upd. apply Nat.le_refl.
+  - intros x Hx0 Hne. rewrite SA, nth_list_upd_neq by congruence. apply nth_error_None. exact Hx0.
+  - intros x xn Hne Hxn. exists xn. split; [rewrite SA, nth_list_upd_neq by congruence; exact Hxn|apply same_but_prio_refl].
+  - intros x Hne. rewrite SB. destruct (mcomp ma mb); [destruct (Nat.eqb_spec x e); [contradiction|reflexivity]|reflexivity].
+  - intros Hfl. rewrite SB.
+    rewrite <- (sbp_flagged _ _ S3) in Hfl.
+    destruct (flagged_prog _ _ _ _ _ Pb) as [(Hmb & Hfb)|Hmb]; rewrite Hmb; cbn [mcomp]; [|rewrite Nat.eqb_refl; reflexivity].
+    destruct (flagged_prog _ _ _ _ _ Pa) as [(Hma & Hfa)|Hma]; rewrite Hma; [|rewrite Nat.eqb_refl; reflexivity].
+    apply (i_csc _ _ _ I e en Hn). congruence.
+  - exact SC.
+  - rewrite SD. pose proof (i_clk _ _ _ I). lia.
+  - rewrite <- (sbp_maxchg _ _ S3). lia.
+  - intros sd0. rewrite Hgx. destruct (i_clke _ _ _ I e en Hn) as (_ & Hlgs). specialize (Hlgs sd0). lia.
+  - exact WT.
+  - apply SJ. apply (i_idx _ _ _ I).
+  - intros; apply Hgx.
+  - intros x xn Hne Hx2 Hxn sd0 k0 Hk0. split; [apply Hobj|]. split; [auto|reflexivity].
+  - intros sd0 k0 Hk0 Hlt. rewrite Hprov in Hlt. destruct (i_cov _ _ _ I sd0 k0 Hk0 Hlt) as [(x & xn & Hxn & Hox)|Hp]; [left|right; exact Hp].
+    destruct (Nat.eq_dec x e) as [Hxe|Hxe].
+    + subst x. exists e, en3. split; [exact Hen2|]. assert (xn = en) by congruence. subst xn. rewrite Hoid3. exact Hox.
+    + exists x, xn. split; [rewrite SA, nth_list_upd_neq by congruence; exact Hxn|exact Hox].
+  - intros sd0 k0 Hk0 Hlt Hg0. rewrite Hprov in Hlt. destruct (i_cove _ _ _ I sd0 k0 Hk0 Hlt Hg0) as (x & xn & Hxn & Hox).
+    destruct (Nat.eq_dec x e) as [Hxe|Hxe].
+    + subst x. exists e, en3. split; [exact Hen2|]. assert (xn = en) by congruence. subst xn. rewrite Hoid3. exact Hox.
+    + exists x, xn. split; [rewrite SA, nth_list_upd_neq by congruence; exact Hxn|exact Hox].
+  - intros sd0 k0 cs0 Hg0. rewrite Hobj. apply (i_ghost _ _ _ I sd0 k0 cs0 Hg0).
+  - apply (EntOk_sbp _ _ _ _ enb en3 S3).
+    apply (EntOk_frame (real_evl w) (real_evl w) g g w w2 e enb EOb); [intros; rewrite Hgx; reflexivity|].
+    intros sd0 k0 Ho0. split; [apply Hobj|]. split; [auto|reflexivity].
 Qed.
